@@ -34,6 +34,8 @@ type Client struct {
 }
 
 // NewClient dials the acceptor of as and returns a scripted peer on the new connection.
+//
+//go:norace
 func (w *World) NewClient(as *AccSide, name, peerID, libID string) *Client {
 	cli, _ := as.L.Dial(name, -1, -1)
 	c := &Client{w: w, P: NewPeer(w, cli, name), PeerID: peerID, LibID: libID}
@@ -58,6 +60,7 @@ type ScriptCfg struct {
 	Shape        func([]byte) []seg
 }
 
+//go:norace
 func (w *World) NewScript(cfg ScriptCfg) *Script {
 	sc := &Script{Client: &Client{w: w, Shape: cfg.Shape}, Role: cfg.Role, Cfg: cfg}
 	if cfg.WriteTimeout == 0 {
@@ -88,6 +91,8 @@ func (w *World) NewScript(cfg ScriptCfg) *Script {
 }
 
 // Sess is the session under test (nil until the acceptor has accepted the connection).
+//
+//go:norace
 func (sc *Script) Sess() *session.Session {
 	if sc.Role == "acceptor" {
 		if len(sc.Acc.Sess) == 0 {
@@ -98,6 +103,7 @@ func (sc *Script) Sess() *session.Session {
 	return sc.Ini.S
 }
 
+//go:norace
 func (sc *Script) Logons() int {
 	if sc.Role == "acceptor" {
 		if len(sc.Acc.Sess) == 0 {
@@ -108,6 +114,7 @@ func (sc *Script) Logons() int {
 	return sc.Ini.Logons
 }
 
+//go:norace
 func (sc *Script) LogoutEvents() int {
 	if sc.Role == "acceptor" {
 		if len(sc.Acc.Sess) == 0 {
@@ -118,24 +125,36 @@ func (sc *Script) LogoutEvents() int {
 	return sc.Ini.Logouts
 }
 
+//go:norace
 func (sc *Client) Settle() { sc.w.SettleNet(sc.P.C) }
 
+//go:norace
 func (sc *Client) NextSeq() int { sc.outSeq++; return sc.outSeq }
+
+//go:norace
 func (sc *Client) SetSeq(n int) { sc.outSeq = n }
+
+//go:norace
 func (sc *Client) LastSeq() int { return sc.outSeq }
 
 // Msg builds a well-formed message from the peer with the next sequence number.
+//
+//go:norace
 func (sc *Client) Msg(typ string, extra ...Field) []byte {
 	return Build(AdminMsg(typ, sc.NextSeq(), sc.PeerID, sc.LibID, extra...), WireOpts{})
 }
 
 // MsgSeq is Msg with an explicit sequence number.
+//
+//go:norace
 func (sc *Client) MsgSeq(typ string, seq int, extra ...Field) []byte {
 	return Build(AdminMsg(typ, seq, sc.PeerID, sc.LibID, extra...), WireOpts{})
 }
 
 // Step injects raw bytes, lets the system settle at the current instant and
 // returns what the library sent in response.
+//
+//go:norace
 func (sc *Client) Step(raw []byte) []RxMsg {
 	sc.P.SendShaped(raw, sc.Shape)
 	sc.Settle()
@@ -143,6 +162,8 @@ func (sc *Client) Step(raw []byte) []RxMsg {
 }
 
 // LogonFields are the body fields of a Logon from the peer.
+//
+//go:norace
 func LogonFields(hb int, method, user, pass string) []Field {
 	fs := []Field{F(TagEncrypt, method), FI(TagHeartBtInt, hb)}
 	if user != "" {
@@ -155,6 +176,8 @@ func LogonFields(hb int, method, user, pass string) []Field {
 }
 
 // DoLogon completes a normal logon (both roles) and returns the library's messages so far.
+//
+//go:norace
 func (sc *Script) DoLogon(hb int) []RxMsg {
 	sc.HB = hb
 	if sc.Role == "initiator" {
@@ -164,6 +187,7 @@ func (sc *Script) DoLogon(hb int) []RxMsg {
 	return sc.Step(sc.Msg("A", LogonFields(hb, "0", "", "")...))
 }
 
+//go:norace
 func typesOf(ms []RxMsg) string {
 	s := ""
 	for _, m := range ms {
@@ -172,6 +196,7 @@ func typesOf(ms []RxMsg) string {
 	return s
 }
 
+//go:norace
 func filterType(ms []RxMsg, typ string) []RxMsg {
 	var out []RxMsg
 	for _, m := range ms {
@@ -182,10 +207,13 @@ func filterType(ms []RxMsg, typ string) []RxMsg {
 	return out
 }
 
+//go:norace
 func count(ms []RxMsg, typ string) int { return len(filterType(ms, typ)) }
 
 // dropTimer removes timer-driven traffic (unsolicited Heartbeats, TestRequests)
 // from a reply list: step-wise oracles other than C07/C08/C09 allow it anytime.
+//
+//go:norace
 func dropTimer(ms []RxMsg) []RxMsg {
 	var out []RxMsg
 	for _, m := range ms {
@@ -204,6 +232,8 @@ func dropTimer(ms []RxMsg) []RxMsg {
 
 // checkFraming flags messages whose BodyLength/CheckSum do not match their bytes.
 // That is C01's subject: here it only makes the run inconclusive.
+//
+//go:norace
 func (sc *Client) checkFraming(ms []RxMsg) bool {
 	for _, m := range ms {
 		l, s := FrameOK(m.Raw)
@@ -217,6 +247,8 @@ func (sc *Client) checkFraming(ms []RxMsg) bool {
 }
 
 // Teardown ends the scenario: close everything and let goroutines exit.
+//
+//go:norace
 func (sc *Script) Teardown() {
 	if sc.Role == "acceptor" {
 		sc.P.C.CloseNow()
@@ -229,8 +261,10 @@ func (sc *Script) Teardown() {
 	simrt.Settle()
 }
 
+//go:norace
 func itoa(n int) string { return strconv.Itoa(n) }
 
+//go:norace
 func short(b []byte) string {
 	s := Pretty(b)
 	if len(s) > 160 {
